@@ -246,7 +246,7 @@ func (r *Rule) doEvaluate(logger debuglog.Logger, phase types.RulePhase, tx *Tra
 			for _, c := range ecol {
 				if c.Variable == v.Variable {
 					// TODO shall we check the pointer?
-					v.Exceptions = append(v.Exceptions, ruleVariableException{c.KeyStr, c.KeyRx})
+					v.Exceptions = append(v.Exceptions[:len(v.Exceptions):len(v.Exceptions)], ruleVariableException{c.KeyStr, c.KeyRx})
 				}
 			}
 
